@@ -88,13 +88,14 @@ def r07_6(prog: Program, rep: Report):
     if not cut_paths:
         rep.undecided("R07.6", q, f.loc, "cut branch not found")
         return
-    p = cut_paths[0]
-    conds = [
-        g
-        for g, pol in p.guards()
-        if pol and not T.contains(g, lambda s: s[0] == "set") and T.contains(g, lambda s: T.is_call_to(s, f"{C.INSP}.issubscriptedgeneric", f"{C.INSP}.isstdlibtype", f"{C.INSP}.isstdlibsubtype", f"{C.INSP}.isstructuredtype", f"{C.INSP}.isbuiltintype") and s[2] and T.is_call_to(s[2][0], f"{C.INSP}.unwrap"))
-    ]
-    if not conds:
+    is_cap = lambda g: not T.contains(g, lambda s: s[0] == "set") and T.contains(g, lambda s: T.is_call_to(s, f"{C.INSP}.issubscriptedgeneric", f"{C.INSP}.isstdlibtype", f"{C.INSP}.isstdlibsubtype", f"{C.INSP}.isstructuredtype", f"{C.INSP}.isbuiltintype") and s[2] and T.is_call_to(s[2][0], f"{C.INSP}.unwrap"))  # noqa: E731
+    # every branch that emits a cyclic-flagged node, with the capability conditions (and their polarity) that lead to it
+    cond_sets = []
+    for p in cut_paths:
+        cs = tuple((g, pol) for g, pol in p.guards() if is_cap(g))
+        if cs and cs not in cond_sets:
+            cond_sets.append(cs)
+    if not cond_sets:
         rep.undecided("R07.6", q, f.loc, "no cyclic-capability condition on the cut branch")
         return
 
@@ -105,13 +106,20 @@ def r07_6(prog: Program, rep: Report):
     bad = []
     decided = 0
     for a in with_members:
-        verdicts = [pe.val(abstract(c), {"U": a}, 0) for c in conds]
-        if any(v is None or v == ("raises",) for v in verdicts):
-            if any(v is not None and v != ("raises",) and not pe.truthy(v) for v in verdicts):
-                bad.append(a.label())
+        outcome = False  # False: every branch refuses; True: some branch takes it; None: unknown
+        for cs in cond_sets:
+            vals = [(pe.val(abstract(g), {"U": a}, 0), pol) for g, pol in cs]
+            if any(v is not None and v != ("raises",) and bool(pe.truthy(v)) != pol for v, pol in vals):
+                continue  # this branch refuses
+            if any(v is None or v == ("raises",) for v, pol in vals):
+                outcome = None if outcome is False else outcome
+                continue
+            outcome = True
+            break
+        if outcome is None:
             continue
         decided += 1
-        if not all(pe.truthy(v) for v in verdicts):
+        if outcome is False:
             bad.append(a.label())
     rep.check(
         not bad, "R07.6", q, f.loc,
